@@ -526,9 +526,11 @@ PROPS["C08"] = {
                                 "httpcluster_Runner_setStateError", "composite_Runner_Run", "composite_Runner_Reload",
                                 "httpserver_Runner_Run", "httpserver_Runner_Reload", "httpserver_Runner_shutdown",
                                 "httpcluster_Runner_Run", "httpcluster_Runner_shutdown", "httpcluster_Runner_processConfigUpdate"],
-    "lean_modules": ["GoSup.Props.C08", "GoSup.Props.C08L", "GoSup.Tie.Lts"],
+    "lean_modules": ["GoSup.Props.C08", "GoSup.Props.C08L", "GoSup.Tie.Lts", "GoSup.Props.C08S"],
     "theorems": ["GoSup.Props.C08.c08_walk", "GoSup.Props.C08.edge_apply", "GoSup.Props.C08L.c08_result_comp",
-                 "GoSup.Props.C08L.c08_result_http"],
+                 "GoSup.Props.C08L.c08_result_http", "GoSup.Props.C08S.c08_sub_stream", "GoSup.Props.C08S.c08_sub_in_order",
+                 "GoSup.Props.C08S.c08_sub_last_is_current", "GoSup.Props.C08S.c08_f1_witness",
+                 "GoSup.Props.C08S.read_first_loses_update"],
     "ties": ["GoSup.Props.C08.tie_setState_sites", "GoSup.Props.C08.tie_error_reachable", "GoSup.Props.C08.tie_table_documented",
              "GoSup.Props.C08.tie_isRunning", "GoSup.Tie.Lts.tie_comp_table", "GoSup.Tie.Lts.tie_http_table"],
     "legs": [{"name": "httpsrv", "cmd": "httpsrv"}, {"name": "composite", "cmd": "composite"}, {"name": "cluster", "cmd": "cluster"}],
@@ -545,8 +547,12 @@ PROPS["C08"] = {
                   "(decide +kernel) show the runners' SetState call sites, IsRunning bodies and the extracted transitions.Typical satisfy "
                   "the hypotheses. Result clause, for every interleaving of the concurrent models CompLts (composite) and HttpLts (HTTP "
                   "server): the step that makes Run() return leaves the state machine in Stopped exactly when the result is nil and "
-                  "in Error for every other result (c08_result_comp, c08_result_http). Subscriber streams and the cluster's result "
-                  "clause are checked on traces of the real runners.",
+                  "in Error for every other result (c08_result_comp, c08_result_http). Subscriber clause, for every interleaving of state "
+                  "changes with the two steps of getStateChanInternal (model FsmSub): a subscriber that keeps up has received the "
+                  "state that was read, then every change since its registration, in order; exactly the documented stream when no "
+                  "change falls between registration and read; its last value is always the current state; finding C08-F1 and the "
+                  "lost update of the read-first variant are witnesses. Channel closure and the cluster's result clause are checked "
+                  "on traces of the real runners.",
     "level_note": COMMON_NOTE,
     "design_ref": "DESIGN.md section 5, C08",
 }
